@@ -74,12 +74,13 @@ def run(chk, replay=None):
                             "LM on 7-bit ASCII passwords, as the property states"]
         # ---- ValueSemantics.tla: "for every input" = in any history; results are values (the design-level statement behind the
         # history layers of the harness: Retain, ReusedInput/arena pass, overwritten inputs, reverse-order pass, reused receivers)
-        vs = dict(POOLED="FALSE", ALIAS="FALSE", CACHE="FALSE", KEEP="FALSE", SHARED="FALSE")
-        chk.add_tlc("value_semantics", vlib.run_tlc("ValueSemantics", vlib.cfg("VS_values.cfg", **vs), timeout=300))
+        vs = dict(POOLED="FALSE", ALIAS="FALSE", CACHE="FALSE", KEEP="FALSE", SHARED="FALSE", RECYCLE="FALSE", FORK="FALSE")
+        bound = dict(MAXALLOC=2 if chk.tier == "quick" else 3)
+        chk.add_tlc("value_semantics", vlib.run_tlc("ValueSemantics", vlib.cfg("VS_values.cfg", **vs, **bound), timeout=600))
         if chk.tier == "thorough":
             refuted = {}
             for dev in vs:
-                g = vlib.run_tlc("ValueSemantics", vlib.cfg("VS_values.cfg", **dict(vs, **{dev: "TRUE"})), allow_violation=True, timeout=300)
+                g = vlib.run_tlc("ValueSemantics", vlib.cfg("VS_values.cfg", **dict(vs, **{dev: "TRUE"}), **bound), allow_violation=True, timeout=300)
                 refuted[dev] = g.violation
                 if g.violation != "Inv":
                     raise vlib.Infra("vacuity guard: ValueSemantics deviation %s not refuted" % dev)
